@@ -41,7 +41,7 @@ def generate(seed, tier, k):
         "reuse_step": mode == 0 and r.random() < 0.4,
         "evaluate_twice": mode == 0 and r.random() < 0.4,
     }
-    return doc
+    return gen.maybe_units(doc)
 
 
 # ----------------------------------------------------------------------------------------
@@ -109,13 +109,22 @@ def apply_model_ramp(fk, j, i):
             fk.items[int(tgt[5:])].update(v)
 
 
-def conv_diff(a, b, tol, floor=1e-3):
+def stiff_units(doc):
+    return float(doc.get("units", {}).get("S", 1.0)) > 1.0
+
+
+def conv_diff(a, b, tol, floor=1e-3, skip_duals=False):
     """Two converged states of the same problem (lists of field value arrays): (exceeds,
     worst diff, its limit). Converged-state tolerance (DESIGN section 6) per field; dual
     fields (pressure, volume ratio) are known only to Newton tolerance times the bulk
     conditioning, five times the displacement rule."""
     worst = (False, 0.0, 0.0)
     for k, (x, y) in enumerate(zip(a, b)):
+        if k > 0 and skip_duals:
+            # Newton's single residual norm mixes the units of the three equations: relative to
+            # reaction forces of 1e6 the volume-ratio equation is "converged" with an error of 1e-2,
+            # so in stiff unit systems the dual fields are determined much less sharply
+            continue
         x, y = np.asarray(x), np.asarray(y)
         scale = max(float(np.abs(y).max()), floor)
         lim = (2e-5 if k == 0 else 1e-4) * scale * max(1.0, tol / 1.5e-8)
@@ -366,7 +375,7 @@ class C15Monitor(jobsim.Monitor):
         if not ramped_items and not disturbed:
             for key2, vals2, tol2 in self.levels:
                 if key2 == key:
-                    bad, d, _lim = conv_diff(vals, vals2, c["tol"])
+                    bad, d, _lim = conv_diff(vals, vals2, c["tol"], skip_duals=stiff_units(self.doc))
                     if bad:
                         if crosses_instability(self.doc, [eng]):
                             raise Discard("history-crosses-instability")
@@ -581,7 +590,7 @@ def restart_check(doc, eng, ra, drop_state, log):
         tol = doc.get("newton", {}).get("tol", 1.5e-8)
         lim = 1e-11 * scale
         if drop_state:
-            bad, diff, lim = conv_diff(va, b["x"], tol)
+            bad, diff, lim = conv_diff(va, b["x"], tol, skip_duals=stiff_units(doc))
             if bad and crosses_instability(doc, [eng]):
                 raise Discard("history-crosses-instability")
             if not bad:
@@ -719,7 +728,7 @@ def retry_check(doc, eng, exc, log):
     for n, (a, b) in enumerate(zip(results, tail)):
         va = [f.values for f in a.x.fields]
         scale = max(float(np.abs(np.concatenate([v.ravel() for v in b["x"]])).max()), 1e-2)
-        bad, diff, _lim = conv_diff(va, b["x"], tol, floor=1e-2)
+        bad, diff, _lim = conv_diff(va, b["x"], tol, floor=1e-2, skip_duals=stiff_units(doc))
         if bad and crosses_instability(doc, [eng2]):
             raise Discard("history-crosses-instability")
         if bad:
@@ -765,7 +774,7 @@ def refine_check(doc, eng, log):
     b = eng2.callbacks[-1]["x"]
     scale = max(float(np.abs(np.concatenate([v.ravel() for v in a])).max()), 1e-3)
     tol = doc.get("newton", {}).get("tol", 1.5e-8)
-    bad, diff, _lim = conv_diff(a, b, tol)
+    bad, diff, _lim = conv_diff(a, b, tol, skip_duals=stiff_units(doc))
     if bad and crosses_instability(doc, [eng, eng2]):
         raise Discard("history-crosses-instability")
     if bad:
